@@ -16,7 +16,7 @@ from ..tables import routing as T
 from ..model import alpha_key
 from ..tables.batch_exceptions import EXCEPTIONS
 
-FLOOR = 104
+FLOOR = 107
 EXPLANATION = (
     "Static batch-axis non-interference over _reset/_step/get_action_mask/_get_reward/check_solution_validity of all 21 env "
     "classes (resolved through inheritance and helpers): the value graph of every written TensorDict cell, returned mask, "
